@@ -279,6 +279,15 @@ def run(ctx, chk):
              "(shared with C12.capacity-field; `2 * n` slots of half the size wraps before the guard sees it)")
     from props.c12 import check_capacity_field
     check_capacity_field(chk, "C05.capacity-field", prog, eff, cache_)
+    chk.rule("C05.break", "SYNTAXERROR is raised for every break that closes nothing: the break callback pops and appends only when "
+             "the stack is non-empty, the top is an indefinite item and, for a map, the count is even; _cbor_is_indefinite is true "
+             "exactly for indefinite strings / arrays / maps (shared with C02.break)")
+    import typestate as _ts5
+    from props.c02 import check_break
+    _H5, _PA5, _IF5, _x5 = ctx.typestate()
+    _g5 = prog.global_for(prog.fn("cbor_load"), "cbor_load.callbacks")
+    _w5 = {n_: getattr(el_, "name", None) for n_, el_ in zip(tables.callback_fields(prog), _g5["init_val"].elems)}
+    check_break(chk, "C05.break", prog, cache_, _ts5.CallSites(prog, eff, cache_, _H5, _PA5), _PA5, _w5["indef_break"])
     chk.exhaustive = True
 
 
